@@ -95,6 +95,7 @@ pub(crate) async fn cmd_commit(
         .store()
         .get_commit_async(commit_id)
         .await?;
+    workspace_command.check_rewritable([commit.id()]).await?;
     let matcher = workspace_command
         .parse_file_patterns(ui, &args.paths)?
         .to_matcher();
